@@ -148,6 +148,9 @@ func NewFilterFS(fs FS, opt *FilterOpt) (FS, error) {
 }
 
 func (fs *filterFS) Open(p string) (io.ReadCloser, error) {
+	// The patterns are written for clean relative paths, as Walk reports
+	// them: "./x", "/x" or "y/../x" must not get past a pattern for "x".
+	p = strings.TrimPrefix(filepath.Clean(string(filepath.Separator)+p), string(filepath.Separator))
 	if fs.includeMatcher != nil {
 		m, err := fs.includeMatcher.MatchesOrParentMatches(p)
 		if err != nil {
